@@ -236,6 +236,99 @@ func rangeClosure(f *file, fd *ast.FuncDecl) *ast.FuncLit {
 	return lit
 }
 
+
+// jsonShape classifies the statements of (*Store).MarshalJSON, the only place the JSON export
+// takes locks: anything it does not recognise is `unknown`, which the model cannot run.
+func jsonShape() []string {
+	sf := parse("internal/metrics/store.go")
+	if sf == nil {
+		shapeErr("ExportLocks", "store.go not found")
+		return []string{".unknown"}
+	}
+	fd := sf.funcDecl("Store", "MarshalJSON")
+	if fd == nil || fd.Body == nil {
+		shapeErr("ExportLocks", "Store.MarshalJSON not found")
+		return []string{".unknown"}
+	}
+	isCall := func(e ast.Expr, recv, method string) bool {
+		ce, ok := e.(*ast.CallExpr)
+		if !ok || len(ce.Args) != 0 {
+			return false
+		}
+		se, ok := ce.Fun.(*ast.SelectorExpr)
+		return ok && se.Sel.Name == method && sf.src(se.X) == recv
+	}
+	rangeOver := func(st ast.Stmt, over string) (*ast.RangeStmt, string) {
+		rs, ok := st.(*ast.RangeStmt)
+		if !ok || sf.src(rs.X) != over {
+			return nil, ""
+		}
+		v := ""
+		if id, ok := rs.Value.(*ast.Ident); ok {
+			v = id.Name
+		}
+		return rs, v
+	}
+	var out []string
+	for _, st := range fd.Body.List {
+		tok := ".unknown"
+		switch x := st.(type) {
+		case *ast.ExprStmt:
+			if isCall(x.X, "s.searchMu", "RLock") {
+				tok = ".rlockStore"
+			}
+		case *ast.DeferStmt:
+			if isCall(x.Call, "s.searchMu", "RUnlock") {
+				tok = ".deferRUnlockStore"
+			} else if fl, ok := x.Call.Fun.(*ast.FuncLit); ok && len(x.Call.Args) == 0 && len(fl.Body.List) == 1 {
+				if rs, v := rangeOver(fl.Body.List[0], "ms"); rs != nil && v != "" && len(rs.Body.List) == 1 {
+					if es, ok := rs.Body.List[0].(*ast.ExprStmt); ok && isCall(es.X, v, "RUnlock") {
+						tok = ".deferRUnlockAll"
+					}
+				}
+			}
+		case *ast.AssignStmt:
+			if len(x.Lhs) == 1 && sf.src(x.Lhs[0]) == "ms" && x.Tok == token.DEFINE && strings.HasPrefix(sf.src(x.Rhs[0]), "make(") {
+				tok = ".decl"
+			}
+		case *ast.RangeStmt:
+			if rs, v := rangeOver(st, "s.Metrics"); rs != nil && v != "" && len(rs.Body.List) == 1 && sf.src(rs.Body.List[0]) == "ms = append(ms, "+v+"...)" {
+				tok = ".collect"
+			} else if rs, v := rangeOver(st, "ms"); rs != nil && v != "" && len(rs.Body.List) == 1 {
+				if es, ok := rs.Body.List[0].(*ast.ExprStmt); ok && isCall(es.X, v, "RLock") {
+					tok = ".rlockAll"
+				}
+			}
+		case *ast.ReturnStmt:
+			if len(x.Results) == 1 && sf.src(x.Results[0]) == "json.Marshal(ms)" {
+				tok = ".retMarshal"
+			}
+		}
+		out = append(out, tok)
+	}
+	return out
+}
+
+// jsonHandlerLocks counts lock operations in the exporter's JSON handler itself (expected: none).
+func jsonHandlerLocks() int {
+	jf := parse("internal/exporter/json.go")
+	if jf == nil {
+		shapeErr("ExportLocks", "json.go not found")
+		return -1
+	}
+	n := 0
+	ast.Inspect(jf.f, func(nd ast.Node) bool {
+		if se, ok := nd.(*ast.SelectorExpr); ok {
+			switch se.Sel.Name {
+			case "Lock", "RLock", "Unlock", "RUnlock":
+				n++
+			}
+		}
+		return true
+	})
+	return n
+}
+
 func init() {
 	register("ExportLocks", func() {
 		targets := []struct{ file, fn, name string }{
@@ -327,6 +420,8 @@ func init() {
 		}
 		sort.Strings(lm)
 		fmt.Fprintf(&b, "/-- methods of *Metric that take the metric's own lock -/\ndef lockingMethods : List String := [%s]\n", strings.Join(lm, ", "))
+		fmt.Fprintf(&b, "/-- statements of (*Store).MarshalJSON, which the JSON export runs -/\ndef marshalJSON : List JTok := %s\n", lst(jsonShape()))
+		fmt.Fprintf(&b, "/-- lock operations written in exporter/json.go itself -/\ndef jsonHandlerLockOps : Int := %d\n", jsonHandlerLocks())
 		b.WriteString("end MtailVerif.Generated.ExportLocks\n")
 		write("ExportLocks", b.String())
 	})
